@@ -97,6 +97,15 @@ class Ctx:
             rid = msg.split(":")[0] if msg[:1] == "C" and ":" in msg[:8] else f"{self.prop}-0"
             self.obs.append(Ob(rule=rid, family="shape", key=f"{rule_fn.__module__.split('.')[-1]}.{rule_fn.__name__}::{msg[:160]}", loc="-", ok=False,
                                msg="the construct this rule must examine is no longer present in its anchor, so the clause cannot be established: " + msg))
+        except (AttributeError, IndexError, KeyError, TypeError, ValueError) as exc:
+            # the rule tripped over a statement whose shape it does not know (e.g. an expected call is now a plain name).  On the reference
+            # tree this never happens (every pack runs clean there); on a changed tree it means the examined construct changed shape, which is
+            # reported like a vanished construct rather than as an internal error — with the Python error kept for diagnosis.
+            import traceback
+            tb = traceback.extract_tb(exc.__traceback__)
+            where = next((f"{os.path.basename(fr.filename)}:{fr.lineno}" for fr in reversed(tb) if "/rules/" in fr.filename), "?")
+            self.obs.append(Ob(rule=f"{self.prop}-0", family="shape", key=f"{rule_fn.__module__.split('.')[-1]}.{rule_fn.__name__}::unexpected shape at {where}", loc="-", ok=False,
+                               msg=f"the construct this rule examines has a shape the rule does not know ({type(exc).__name__}: {exc} at {where}), so the clause cannot be established on this code"))
 
     def note(self, txt: str) -> None:
         self.notes.append(txt)
